@@ -293,3 +293,189 @@ def check_group_order(build):
     if res == z3.unsat: return [Ob(nm, 'proved', 'each step satisfies the Edwards addition law; final X = 0', dt, 'z3 ground', {'steps': len(steps), 'final': [hex(acc[0]), hex(acc[1])]})]
     if res == z3.sat: return [Ob(nm, 'violated', f'[r]*GENERATOR = {acc}', dt, 'z3 ground', None, {'kind': 'order', 'build': build})]
     return [Ob(nm, 'inconclusive', 'z3 unknown', dt, 'z3 ground')]
+
+# ============================================================================================== C16: BLS12-377 configuration
+def _bls_models():
+    def m_quad_new(I, fr, fn, a): return Agg('Fp2', [a[0], a[1]])
+    def m_cubic_new(I, fr, fn, a): return Agg('Fp6', [a[0], a[1], a[2]])
+    def c_ext_const(I, fr, path):
+        m = re.match(r'^<ark_ff::(Quad|Cubic)ExtField<.*> as ark_ff::Field>::(ZERO|ONE)$', path)
+        one = m.group(2) == 'ONE'
+        z2 = Agg('Fp2', [FE.const('Fp', 0), FE.const('Fp', 0)]); o2 = Agg('Fp2', [FE.const('Fp', 1), FE.const('Fp', 0)])
+        if m.group(1) == 'Quad': return o2 if one else z2
+        return Agg('Fp6', [o2 if one else z2, z2, z2])
+    return [(r'^ark_ff::QuadExtField::<.*>::new$', m_quad_new), (r'^ark_ff::CubicExtField::<.*>::new$', m_cubic_new),
+            (r'^ark_ec::short_weierstrass::Affine::<.*>::new_unchecked$', lambda I, fr, fn, a: Agg('SWAffine', list(a)))], [(r'^<ark_ff::(Quad|Cubic)ExtField<.*> as ark_ff::Field>::(ZERO|ONE)$', c_ext_const)]
+
+def _ref_bls_values():
+    """reference values parsed from the source of the ark-bls12-377 crate in the cargo registry (decimal MontFp! literals)"""
+    import glob, os
+    base = glob.glob(os.path.expanduser('~/.cargo/registry/src/*/ark-bls12-377-0.4.0/src'))
+    if not base: raise Unsupported('ark-bls12-377 source not found in the cargo registry')
+    base = base[0]
+    out = {}
+    def lits(txt): return [int(x) for x in re.findall(r'MontFp!\(\s*"(-?\d+)"\s*\)', txt)]
+    for rel in ('curves/g1.rs', 'curves/g2.rs', 'fields/fq2.rs', 'fields/fq6.rs', 'fields/fq12.rs', 'curves/mod.rs'):
+        p = os.path.join(base, rel)
+        if os.path.exists(p): out[rel] = open(p).read()
+    return out, lits
+
+def check_bls_config():
+    """C16 (constants only): every literal of ark_curve/bls12_377.rs satisfies its defining equation and equals the value in the
+    reference crate's source; the engine itself is the same generic ark-ec code over the same field types"""
+    items, I = interp_for('ark')
+    extra_fns, extra_consts = _bls_models()
+    I.models['fns'] = extra_fns + I.models['fns']; I.models['consts'] = extra_consts + I.models.get('consts', [])
+    G = Ground('ark'); p = FIELDS['Fp']; r = FIELDS['Fq']
+    X = 0x8508c00000000001
+    def hdr_const(name, hdr): return ev(I, mirsym.find_item_hdr(items, rf'^ark_curve::bls12_377::.*::{name}$', hdr))
+    def plain(name): return ev(I, find_consts(items, rf'^ark_curve::bls12_377::{name}$')[0])
+    def guard(name, fn):
+        try: fn()
+        except (Unsupported, Panic, AssertionError, KeyError, IndexError, TypeError, AttributeError, ValueError) as e:
+            G.obs.append(Ob(f'ark:bls12_377 {name}', 'inconclusive', f'{type(e).__name__}: {e} ' + ' <- '.join(getattr(e, 'mir_stack', [])[:2]), 0, 'mirsym const eval'))
+    def f2(v):
+        v = I.deref(v) if isinstance(v, (Ref, SliceRef)) else v
+        return (val(v.fields[0]), val(v.fields[1]))
+    def arr(v):
+        v = I.deref(v) if isinstance(v, (Ref, SliceRef)) else v
+        return v
+    beta = p - 5
+    def f2mul(a, b): return ((a[0] * b[0] + beta * a[1] * b[1]) % p, (a[0] * b[1] + a[1] * b[0]) % p)
+    def f2pow(a, e):
+        res = (1, 0)
+        while e:
+            if e & 1: res = f2mul(res, a)
+            a = f2mul(a, a); e >>= 1
+        return res
+    def f2chain(base, e, tag):
+        """ground chain for base^e in Fp2 = Fp[u]/(u^2 + 5): returns (x0, x1) z3 constants and their defining equations"""
+        eqs = []; G.n += 1; n = G.n
+        a0, a1 = z3.IntVal(1), z3.IntVal(0); b0, b1 = z3.IntVal(base[0]), z3.IntVal(base[1])
+        for i, bit in enumerate(bin(e)[2:] if e else ''):
+            s0 = z3.Int(f'q{n}_{i}s0'); s1 = z3.Int(f'q{n}_{i}s1')
+            eqs += [s0 == (a0 * a0 + beta * a1 * a1) % p, s1 == (2 * a0 * a1) % p]
+            if bit == '1':
+                m0 = z3.Int(f'q{n}_{i}m0'); m1 = z3.Int(f'q{n}_{i}m1')
+                eqs += [m0 == (s0 * b0 + beta * s1 * b1) % p, m1 == (s0 * b1 + s1 * b0) % p]; a0, a1 = m0, m1
+            else: a0, a1 = s0, s1
+        return (a0, a1), eqs
+    # ---- parameters
+    guard('X', lambda: G.check('Bls12Config::X and the curve family: r = x^4 - x^2 + 1, p = (x - 1)^2 r / 3 + x', z3.And(z3.IntVal(val(arr(hdr_const('X', 'Bls12Config for')))) == X, z3.IntVal(X) ** 0 == 1, X ** 4 - X ** 2 + 1 == r, (X - 1) ** 2 * r == 3 * (p - X))))
+    guard('X_IS_NEGATIVE', lambda: G.check('Bls12Config::X_IS_NEGATIVE = false', z3.BoolVal(hdr_const('X_IS_NEGATIVE', 'Bls12Config for') is False)))
+    guard('TWIST_TYPE', lambda: G.check('Bls12Config::TWIST_TYPE = D', z3.BoolVal(str(hdr_const('TWIST_TYPE', 'Bls12Config for').variant).endswith('D'))))
+    # ---- Fp2
+    guard('Fp2 NONRESIDUE', lambda: G.eq('Fp2Config::NONRESIDUE = -5', val(hdr_const('NONRESIDUE', 'Fp2Config for')), beta))
+    def frob2():
+        c = arr(hdr_const('FROBENIUS_COEFF_FP2_C1', 'Fp2Config for'))
+        G.eq('FROBENIUS_COEFF_FP2_C1[0] = 1', val(c[0]), 1)
+        x, eqs = G.powchain(z3.IntVal(beta), (p - 1) // 2, p)
+        G.check('FROBENIUS_COEFF_FP2_C1[1] = NONRESIDUE^((p-1)/2)', x == val(c[1]), eqs)
+        G.check('FROBENIUS_COEFF_FP2_C1 has 2 entries', z3.BoolVal(len(c) == 2))
+    guard('FROBENIUS_COEFF_FP2_C1', frob2)
+    xi = (0, 1)
+    guard('Fp6 NONRESIDUE', lambda: G.check('Fp6Config::NONRESIDUE = u (= (0, 1) in Fp2)', z3.BoolVal(f2(hdr_const('NONRESIDUE', 'Fp6Config for')) == xi)))
+    def frob_table(name, hdr, n, expo, desc):
+        c = arr(hdr_const(name, hdr))
+        G.check(f'{name} has {n} entries', z3.BoolVal(len(c) == n))
+        for i in range(min(n, len(c))):
+            e = expo(i)
+            (x0, x1), eqs = f2chain(xi, e, name)
+            got = f2(c[i])
+            G.check(f'{name}[{i}] = {desc(i)}', z3.And(x0 == got[0], x1 == got[1]), eqs, sample={'value': [hex(got[0])[:40], hex(got[1])[:40]]})
+    guard('FROBENIUS_COEFF_FP6_C1', lambda: frob_table('FROBENIUS_COEFF_FP6_C1', 'Fp6Config for', 6, lambda i: (p ** i - 1) // 3, lambda i: f'u^((p^{i} - 1)/3)'))
+    guard('FROBENIUS_COEFF_FP6_C2', lambda: frob_table('FROBENIUS_COEFF_FP6_C2', 'Fp6Config for', 6, lambda i: (2 * p ** i - 2) // 3, lambda i: f'u^((2 p^{i} - 2)/3)'))
+    guard('FROBENIUS_COEFF_FP12_C1', lambda: frob_table('FROBENIUS_COEFF_FP12_C1', 'Fp12Config for', 12, lambda i: (p ** i - 1) // 6, lambda i: f'u^((p^{i} - 1)/6)'))
+    def f12nr():
+        v = hdr_const('NONRESIDUE', 'Fp12Config for')
+        G.check('Fp12Config::NONRESIDUE = v (= (0, 1, 0) in Fp6)', z3.BoolVal([f2(x) for x in v.fields] == [(0, 0), (1, 0), (0, 0)]))
+    guard('Fp12 NONRESIDUE', f12nr)
+    # ---- G1
+    def g1():
+        a = val(hdr_const('COEFF_A', 'SWCurveConfig for OurG1Config')); b = val(hdr_const('COEFF_B', 'SWCurveConfig for OurG1Config'))
+        G.check('G1: y^2 = x^3 + 1 (COEFF_A = 0, COEFF_B = 1)', z3.And(z3.IntVal(a) == 0, z3.IntVal(b) == 1))
+        gx, gy = val(plain('G1_GENERATOR_X')), val(plain('G1_GENERATOR_Y'))
+        G.check('G1 generator is on the curve', (z3.IntVal(gy) * gy - z3.IntVal(gx) * gx * gx - 1) % p == 0)
+        gen = hdr_const('GENERATOR', 'SWCurveConfig for OurG1Config')
+        G.check('SWCurveConfig::GENERATOR (G1) = (G1_GENERATOR_X, G1_GENERATOR_Y)', z3.BoolVal([val(x) for x in gen.fields] == [gx, gy]))
+        h = val(arr(hdr_const('COFACTOR', 'CurveConfig for OurG1Config')))
+        G.check('G1 COFACTOR = (x - 1)^2 / 3', z3.IntVal(h) * 3 == (X - 1) ** 2)
+        hi = val(hdr_const('COFACTOR_INV', 'CurveConfig for OurG1Config'))
+        G.check('G1 COFACTOR_INV * COFACTOR = 1 mod r', (z3.IntVal(hi) * h) % r == 1)
+        # [r] G1 = O  by an affine short-Weierstrass chain with checked hints
+        sw_order_chain(G, 'G1', (gx, gy), r, p)
+    guard('G1', g1)
+    # ---- G2
+    def g2():
+        a = f2(hdr_const('COEFF_A', 'SWCurveConfig for OurG2Config')); b = f2(hdr_const('COEFF_B', 'SWCurveConfig for OurG2Config'))
+        G.check('G2 COEFF_A = 0', z3.BoolVal(a == (0, 0)))
+        bx = f2mul(b, xi)
+        G.check('G2 COEFF_B * u = 1 (D-type twist y^2 = x^3 + 1/u)', z3.And((z3.IntVal(b[0]) * 0 + beta * z3.IntVal(b[1]) * 1) % p == 1, (z3.IntVal(b[0]) * 1 + z3.IntVal(b[1]) * 0) % p == 0))
+        gx, gy = f2(plain('G2_GENERATOR_X')), f2(plain('G2_GENERATOR_Y'))
+        lhs = f2mul(gy, gy); x3 = f2mul(f2mul(gx, gx), gx); rhs = ((x3[0] + b[0]) % p, (x3[1] + b[1]) % p)
+        X0, X1, Y0, Y1 = [z3.IntVal(v) for v in (gx[0], gx[1], gy[0], gy[1])]
+        xx0 = (X0 * X0 + beta * X1 * X1); xx1 = 2 * X0 * X1
+        G.check('G2 generator is on the twist', z3.And((Y0 * Y0 + beta * Y1 * Y1 - (xx0 * X0 + beta * xx1 * X1) - b[0]) % p == 0, (2 * Y0 * Y1 - (xx0 * X1 + xx1 * X0) - b[1]) % p == 0))
+        gen = hdr_const('GENERATOR', 'SWCurveConfig for OurG2Config')
+        G.check('SWCurveConfig::GENERATOR (G2) = (G2_GENERATOR_X, G2_GENERATOR_Y)', z3.BoolVal([f2(x) for x in gen.fields] == [gx, gy]))
+        h = val(arr(hdr_const('COFACTOR', 'CurveConfig for OurG2Config')))
+        G.check('G2 COFACTOR = (x^8 - 4x^7 + 5x^6 - 4x^4 + 6x^3 - 4x^2 - 4x + 13)/9', z3.IntVal(h) * 9 == X ** 8 - 4 * X ** 7 + 5 * X ** 6 - 4 * X ** 4 + 6 * X ** 3 - 4 * X ** 2 - 4 * X + 13)
+        hi = val(hdr_const('COFACTOR_INV', 'CurveConfig for OurG2Config'))
+        G.check('G2 COFACTOR_INV * COFACTOR = 1 mod r', (z3.IntVal(hi) * h) % r == 1)
+    guard('G2', g2)
+    # ---- equality with the reference crate's literals
+    def ref():
+        src, lits = _ref_bls_values()
+        ours = open(common.REPO + '/src/ark_curve/bls12_377.rs').read()
+        # every decimal literal of the reference that defines a Frobenius coefficient / generator coordinate / cofactor inverse
+        refvals = set()
+        for rel, txt in src.items(): refvals.update(v % p for v in lits(txt))
+        mine = []
+        for nm, hd in (('FROBENIUS_COEFF_FP6_C1', 'Fp6Config for'), ('FROBENIUS_COEFF_FP6_C2', 'Fp6Config for'), ('FROBENIUS_COEFF_FP12_C1', 'Fp12Config for')):
+            for i, c in enumerate(arr(hdr_const(nm, hd))):
+                for j, v in enumerate(f2(c)): mine.append((f'{nm}[{i}].c{j}', v))
+        for nm in ('G1_GENERATOR_X', 'G1_GENERATOR_Y'): mine.append((nm, val(plain(nm))))
+        for nm in ('G2_GENERATOR_X', 'G2_GENERATOR_Y'):
+            for j, v in enumerate(f2(plain(nm))): mine.append((f'{nm}.c{j}', v))
+        missing = [n for n, v in mine if v not in refvals and v not in (0, 1, p - 1)]
+        G.check(f'{len(mine)} tower/generator literals occur among the reference crate\'s literals (ark-bls12-377 0.4.0 source)', z3.BoolVal(not missing), sample={'missing': missing[:5], 'reference_literals': len(refvals)})
+        rq = set()
+        for rel, txt in src.items(): rq.update(v % r for v in lits(txt))
+        ci = [('G1 COFACTOR_INV', val(hdr_const('COFACTOR_INV', 'CurveConfig for OurG1Config'))), ('G2 COFACTOR_INV', val(hdr_const('COFACTOR_INV', 'CurveConfig for OurG2Config')))]
+        G.check('cofactor inverses occur among the reference crate\'s literals', z3.BoolVal(all(v in rq for _, v in ci)), sample={'values': [hex(v)[:30] for _, v in ci]})
+    guard('reference crate literals', ref)
+    return G.obs
+
+def sw_order_chain(G, tag, P, n, p):
+    """[n] P = O on y^2 = x^3 + b over F_p (a = 0): affine double-and-add with every step's result as a checked hint"""
+    def add(p1, p2):
+        if p1 is None: return p2
+        if p2 is None: return p1
+        (x1, y1), (x2, y2) = p1, p2
+        if x1 == x2 and (y1 + y2) % p == 0: return None
+        lam = (3 * x1 * x1) * pow(2 * y1, -1, p) % p if p1 == p2 else (y2 - y1) * pow(x2 - x1, -1, p) % p
+        x3 = (lam * lam - x1 - x2) % p
+        return (x3, (lam * (x1 - x3) - y1) % p)
+    conj = []; acc = None; ins = P; k = n
+    final_inverse = None
+    while k:
+        if k & 1:
+            nacc = add(acc, ins)
+            if acc is not None:
+                (x1, y1), (x2, y2) = acc, ins
+                if nacc is None: final_inverse = (acc, ins)
+                else:
+                    lam = (y2 - y1) * pow(x2 - x1, -1, p) % p
+                    conj.append(z3.And((z3.IntVal(lam) * (x2 - x1) - (y2 - y1)) % p == 0, (z3.IntVal(lam) * lam - x1 - x2 - nacc[0]) % p == 0, (z3.IntVal(lam) * (x1 - nacc[0]) - y1 - nacc[1]) % p == 0, z3.IntVal((x2 - x1) % p) != 0))
+            acc = nacc
+        k >>= 1
+        if k:
+            (x1, y1) = ins; nins = add(ins, ins)
+            lam = (3 * x1 * x1) * pow(2 * y1, -1, p) % p
+            conj.append(z3.And((z3.IntVal(lam) * 2 * y1 - 3 * x1 * x1) % p == 0, (z3.IntVal(lam) * lam - 2 * x1 - nins[0]) % p == 0, (z3.IntVal(lam) * (x1 - nins[0]) - y1 - nins[1]) % p == 0, z3.IntVal(y1 % p) != 0))
+            ins = nins
+    ok_final = acc is None and final_inverse is not None
+    if ok_final:
+        (x1, y1), (x2, y2) = final_inverse
+        conj.append(z3.And(z3.IntVal(x1) == x2, (z3.IntVal(y1) + y2) % p == 0))
+    G.check(f'[r] {tag} generator = O ({len(conj)} checked affine steps; the last addition is P + (-P))', z3.And(conj + [z3.BoolVal(ok_final)]))
